@@ -2,6 +2,7 @@ package props
 
 import (
 	"fmt"
+	"os"
 
 	"verifsim/engine"
 	"verifsim/machine"
@@ -35,7 +36,7 @@ func (c23) Describe() engine.Info {
 			"Oracle: bytes delivered to the writer == sequence of SB writes (exactly once, in order, nothing else); nothing delivered and no crash with a nil writer; SB and SC read FF. Signature = (class, what preceded the SB write: SC value class / DMA running / interrupt dispatched / LCD on)." +
 			" Read-modify-write instructions on SB count as writes; if a program leaves its path the SB stores actually executed are the oracle; class pair: two instances with slow writers interleaved by the scheduler.",
 		Assumptions:    []string{"writer errors make the emulator panic by design; the statement is silent on them and they are not injected", "ROM SB writes are recognised for the store forms LDH (n),A / LD (C),A / LD (nn),A / LD (HL),r / LD (HL),n / LD (rr),A / LD (HL+-),A"},
-		RequiredProbes: []string{"sb_writes", "sb_write_after_sc_external_clock", "sb_write_during_dma", "nil_writer_runs", "sb_sc_reads", "rom_sb_writes", "blocked_in_writer_while_other_instance_runs", "program_continued_after_cleanup"},
+		RequiredProbes: []string{"sb_writes", "sb_write_after_sc_external_clock", "sb_write_during_dma", "nil_writer_runs", "sb_sc_reads", "rom_sb_writes", "blocked_in_writer_while_other_instance_runs", "program_continued_after_cleanup", "traced_without_writer", "long_line"},
 		RealComponents: realComponents, StubComponents: stubComponents,
 	}
 }
@@ -71,6 +72,27 @@ func (c23) Generate(r *engine.Rand, index int, tier string) *engine.Scenario {
 		sc.Class = "program-after-cleanup"
 		sc.Serial = true
 		sc.SetP("cleanup_at", int64(r.Range(20, 400)))
+	}
+	if index%600 == 11 {
+		// one very long line: tens of thousands of bytes none of which is a line feed
+		sc.Class = "program-long-line"
+		sc.Serial = true
+		lo := uint8(r.Range(0x0b, 0xf0))
+		sc.SetStr("prog", engine.Hex([]byte{0x3e, lo, 0xe0, 0x01, 0x3c, 0x20, 0xfb, 0x18, 0xf7, 0x18, 0xfe}))
+		sc.SetStr("expect", "")
+		sc.Cycles = 480_000 + uint64(r.Intn(40_000))
+		if tier == "thorough" {
+			sc.Cycles *= 3
+		}
+		return sc
+	}
+	if index%20 == 13 {
+		// the instruction trace is on (it goes to standard output) and no writer is configured: standard
+		// output carries the trace and nothing else - the same bytes as in a run of the same program with
+		// a writer configured
+		sc.Class = "program-traced"
+		sc.Serial = false
+		sc.SetP("debugcpu", 1)
 	}
 	code, expect, reads := c23Program(r)
 	sc.SetStr("prog", engine.Hex(code))
@@ -257,6 +279,36 @@ func (c23) Execute(sc *engine.Scenario) *engine.Result {
 	if sc.Class == "pair" {
 		return c23Pair(sc, res)
 	}
+	if sc.Class == "program-traced" && sc.P("traced_inner", 0) == 0 {
+		// two runs with standard output captured: no writer, then a writer; the trace must be the same
+		var out [2][]byte
+		var first *engine.Result
+		for i := 0; i < 2; i++ {
+			c := sc.Clone()
+			c.SetP("traced_inner", 1)
+			c.Serial = i == 1
+			var r *engine.Result
+			out[i] = captureStdout(func() { r = c23{}.Execute(c) })
+			if r.Harness != "" || r.Violation != nil {
+				return r
+			}
+			if i == 0 {
+				first = r
+			}
+		}
+		first.Probe("traced_without_writer")
+		if string(out[0]) != string(out[1]) {
+			n := 0
+			for n < len(out[0]) && n < len(out[1]) && out[0][n] == out[1][n] {
+				n++
+			}
+			first.Fail("C23/stdout-without-writer", uint64(n), "with the instruction trace on and no writer configured, standard output differs from that of the same run with a writer configured at byte %d (%d bytes against %d): SB writes are not dropped without effect", n, len(out[0]), len(out[1]))
+		}
+		if len(out[0]) == 0 {
+			first.Harness = "no trace captured on standard output"
+		}
+		return first
+	}
 	m := build(sc, res)
 	if m == nil {
 		return res
@@ -273,6 +325,7 @@ func (c23) Execute(sc *engine.Scenario) *engine.Result {
 	// the SB stores the CPU really executes (decoded at instruction boundaries), whatever path the
 	// program takes; also tracks what precedes SB writes for coverage
 	var executed []byte
+	var lastStoreAt uint64
 	cleaned := false
 	m.OnCycle = func() {
 		if !m.CPU.VerifAtBoundary() {
@@ -280,6 +333,7 @@ func (c23) Execute(sc *engine.Scenario) *engine.Result {
 		}
 		if ok, v := sbStore(m); ok && !(m.IRQ.Enabled() && m.IRQ.Pending()) && !m.CPU.VerifHalted() {
 			executed = append(executed, v)
+			lastStoreAt = m.N
 		}
 		if ok, _ := sbStore(m); ok {
 			res.Probe("sb_writes")
@@ -327,10 +381,20 @@ func (c23) Execute(sc *engine.Scenario) *engine.Result {
 	if m.CPU.VerifGetRegs().PC != end && m.CPU.VerifGetRegs().PC != end+2 {
 		// the program left its path (only an emulator that mishandles something can cause that): what
 		// was delivered is still judged against the SB stores that were executed
+		if len(executed) > 0 && m.N-lastStoreAt < 4 && len(m.SerialOut) == len(executed)-1 {
+			executed = executed[:len(executed)-1] // the run ended inside the last store instruction
+		}
 		if sc.Serial {
 			if c23Compare(res, m.SerialOut, executed, "program-astray"); res.Violation != nil {
 				return res
 			}
+		}
+		if sc.Class == "program-long-line" {
+			if len(executed) > 66000 {
+				res.Probe("long_line")
+			}
+			res.Sig("program/long-line")
+			return res
 		}
 		res.Harness = fmt.Sprintf("C23 program did not reach its end (PC=%04x, end=%04x)", m.CPU.VerifGetRegs().PC, end)
 		return res
@@ -362,6 +426,28 @@ func (c23) Execute(sc *engine.Scenario) *engine.Result {
 		res.Digest = uint64(dg)
 	}
 	return res
+}
+
+// captureStdout runs f with the process's standard output redirected into a scratch file and returns
+// what was written to it.
+func captureStdout(f func()) []byte {
+	tmp, err := os.CreateTemp(machine.ScratchDir(), "stdout-*")
+	if err != nil {
+		panic(err)
+	}
+	defer os.Remove(tmp.Name())
+	defer tmp.Close()
+	saved := os.Stdout
+	os.Stdout = tmp
+	func() {
+		defer func() { os.Stdout = saved }()
+		f()
+	}()
+	b, err := os.ReadFile(tmp.Name())
+	if err != nil {
+		panic(err)
+	}
+	return b
 }
 
 func c23Compare(res *engine.Result, got, want []byte, cls string) {
